@@ -7,6 +7,14 @@ fn main() {
         eprintln!("usage: avro-verif <ID> [--tier quick|thorough] [--replay FILE]");
         std::process::exit(2);
     }
+    if args[0] == "parse" {
+        // debugging aid: parse a schema text and print the verdict
+        match apache_avro::Schema::parse_str(&args[1]) {
+            Ok(s) => println!("Ok: {}", serde_json::to_string(&s).unwrap_or_default()),
+            Err(e) => println!("Err: {e}"),
+        }
+        return;
+    }
     let id = args[0].to_uppercase();
     let mut i = 1;
     let mut replay = None;
@@ -41,6 +49,7 @@ fn main() {
         "C04" => props::c04::run(chk),
         "C06" => props::c06::run(chk),
         "C10" => props::c10::run(chk),
+        "C11" => props::c11::run(chk),
         "C12" => props::c12::run(chk),
         "C13" => props::c13::run(chk),
         "C14" => props::c14::run(chk),
